@@ -406,6 +406,10 @@ def cfgNone : Config Int := { cfg with plan := .none }
 def cfgNat : Config Int := { cfg with plan := .natural }
 /-- the same chain with the first-order lag listed before the second-order one -/
 def cfgFwd : Config Int := { cfgNat with lags := [(0, 8), (8, 9), (5, 10)] }
+/-- out_recode keeps a running count of treated intervals (column 12) that is itself lagged (into column 13) and
+    read by the plan: 'treat while never treated', rule `g['cumA_l1'] == 0` -/
+def cfgCum : Config Int :=
+  { cfg with plan := .custom (.cmp .eq (.var 13) (.const 0)), lags := [(0, 8), (5, 10), (12, 13)] }
 def base : Env Int := ⟨fun _ => 0⟩
 /-- L draws 0,1,0,…; exposure draws 1,0,0; outcome 0,0,1; uncensored 1,1,1 -/
 def draws : Nat → StepDraw Int := fun i =>
@@ -416,6 +420,7 @@ theorem safe : Safe cfg := ⟨by decide, by decide⟩
 theorem safeAll : Safe cfgAll := ⟨by decide, by decide⟩
 theorem safeNone : Safe cfgNone := ⟨by decide, by decide⟩
 theorem safeNat : Safe cfgNat := ⟨by decide, by decide⟩
+theorem safeCum : Safe cfgCum := ⟨by decide, by decide⟩
 theorem num01 : Num01 Int := ⟨by decide, by decide, by decide⟩
 end Ex
 
